@@ -29,7 +29,7 @@ RULE = ("cases: generated trees with nesting, non-zero cancellation delays and s
         "digest; evidence counts the phase (main / tidy / shutdown) the victim was in")
 ASSUMPTIONS = RT_ASSUMPTIONS
 
-PROFILE = S.GENERAL.but(p_rerun=8, 
+PROFILE = S.GENERAL.but(p_block=6, p_rerun=8, 
     p_nested=38, force_nested=85, p_empty_nested=2, max_members=4,
     cs=((0, 3), (1, 3), (2, 2)), sds=((0, 3), (1, 3), (2, 2), (3, 1)),
     sdts=((None, 1), (0, 1), (1, 3), (2, 2), (3, 1)),
